@@ -929,6 +929,12 @@ class Contract:
         # defs: instances of the DEFINITIONS of ghost view functions (view(array, i) := the value stored at entry i) at the entry a
         # call touches.  Added to the caller's path at call sites, never an obligation: a definitional (conservative) extension.
         self.defs = defs
+        # self_defs: instances of the DEFINITION of a ghost function (e.g. days(y,m,d) := the day count formula) at the values this
+        # function's own postconditions mention; assumed while proving those postconditions, so that callers can reason about the
+        # ghost function opaquely (linear arithmetic) -- again a definitional, conservative extension
+        self.self_defs = None
+        # labels of postconditions that are proved but not handed to callers (callers get an equivalent, lighter clause)
+        self.private = ()
         # lang_requires: guarantees of the language / calling convention (distinct references do not overlap, ...);
         # requires: the domain over which the functional postcondition is stated
         self.lang_requires = lang_requires or (lambda c: [])
@@ -1110,6 +1116,10 @@ class Executor(Engine):
         st = State()
         st.mem = z3.Const('mem0', self.mem_sort)
         args = self.make_args(fn, st)
+        if contract.inputs:
+            # argument values that the contract's precondition fixes in terms of other arguments (e.g. q == p + 6) are substituted,
+            # so that the byte-level memory model resolves accesses through them syntactically; the equalities are part of `requires`
+            args = contract.inputs(self, args)
         if contract.ghost_init:
             contract.ghost_init(self, st)
         old = MemView(self, {}, st.mem)
@@ -1464,6 +1474,8 @@ class Executor(Engine):
         c2.log = st.log
         posts = contract.ensures(c2)
         fnm = short_fn(contract.name)
+        if contract.self_defs is not None:
+            st.pc = st.pc + [simp(e) for _, e in contract.self_defs(c2)]
         cases = contract.cases(c2) if callable(contract.cases) else contract.cases
         for label, e in posts:
             if cases and not z3.is_true(simp(e)):
@@ -1564,6 +1576,8 @@ class Executor(Engine):
         cx2.ghost = st.ghost
         cx2.log = st.log
         for label, e in c.ensures(cx2):
+            if label in c.private:
+                continue
             st.pc.append(simp(e))
         if c.defs is not None:
             for label, e in c.defs(cx2):
